@@ -187,6 +187,7 @@ def run(ch, idx, tier):
         sigs = []
         first_detail = {}
         knife = None
+        trace = hashlib.sha256()
         for i in crash_indices:
             medium = MEDIA[ch.choose("medium", len(MEDIA))]
             chain = 1 + (ch.choose("chain", 3) if ch.flip("do_chain", 0.25) else 0)
@@ -211,6 +212,9 @@ def run(ch, idx, tier):
                     break
                 bump("evaluations")
                 bump(f"fault:crash_restart_{medium}")
+                from atomsim.digest import digest_result as _dr
+
+                trace.update(_dr(new).encode())
                 bump("model_years_x1000", int(1000 * (new.t[-1] - new.t[0])))
                 links.append((crash_at, medium))
                 # ---- oracle: tail of the uninterrupted run, index by index ----------------
@@ -272,6 +276,7 @@ def run(ch, idx, tier):
             "violations": violations,
             "stats": stats,
             "signature": None,
+            "trace": trace.hexdigest(),
             "signatures": sorted(set(sigs)),
             "nontrivial": bool(sigs),
             "sample": {"config": config, "grid_points": N, "crash_indices": len(crash_indices), "restarts_ok": len(sigs), "violations": [v["cls"] for v in violations]},
